@@ -286,3 +286,210 @@ Proof.
   apply (chain_slices_numbers b nds sl Hsl).
   rewrite <- s_fterms_numbers with (u := u). rewrite <- E. apply in_map. exact Hx.
 Qed.
+
+(* ---------- a number that belongs to one slice node only ---------- *)
+
+Definition pbar_nds (p : pbar Q) : list (pnode Q * dof3) := combine (pb_nodes p) (pb_dofs p).
+Definition bars_numbers (bars : list (pbar Q)) : list nat := flat_map (fun p => nds_numbers (pbar_nds p)) bars.
+
+Lemma k_terms_bar_notin u p i : ~ In i (nds_numbers (pbar_nds p)) ->
+  fraw_at (flat_map (s_fterms u) (bar_slices p)) i == 0.
+Proof. intros H. rewrite bar_slices_chain. apply fraw_chain_notin. exact H. Qed.
+
+Lemma k_terms_bars_notin u bars i : ~ In i (bars_numbers bars) -> fraw_at (k_terms u bars) i == 0.
+Proof.
+  unfold k_terms, all_slices. rewrite flat_map_flat_map.
+  induction bars as [|p bars IH]; intros H; cbn [flat_map]; [apply fraw_at_nil|].
+  unfold bars_numbers in H. cbn [flat_map] in H.
+  rewrite fraw_at_app, IH, k_terms_bar_notin; [ring | |]; intro G; apply H; apply in_or_app; [left | right]; exact G.
+Qed.
+
+Lemma node_fterms_numbers (b : bar Q) x : map fst (node_fterms b x) = d3_list (snd x).
+Proof. reflexivity. Qed.
+
+Lemma fterms_nds_notin (b : bar Q) nds i : ~ In i (nds_numbers nds) ->
+  fraw_at (flat_map (node_fterms b) nds) i == 0.
+Proof.
+  intros H. apply fraw_at_notin. intros x Hx E. apply H.
+  apply in_flat_map in Hx as (nd & Hnd & Hx). unfold nds_numbers. apply in_flat_map. exists nd. split; [exact Hnd|].
+  rewrite <- node_fterms_numbers with (b := b). rewrite <- E. apply in_map. exact Hx.
+Qed.
+
+Lemma fterms_bars_notin bars i : ~ In i (bars_numbers bars) -> fraw_at (all_fterms bars) i == 0.
+Proof.
+  unfold all_fterms. induction bars as [|p bars IH]; intros H; cbn [flat_map]; [apply fraw_at_nil|].
+  unfold bars_numbers in H. cbn [flat_map] in H.
+  rewrite fraw_at_app, IH; [| intro G; apply H; apply in_or_app; right; exact G].
+  unfold bar_fterms. rewrite fterms_nds_notin; [ring|]. intro G; apply H; apply in_or_app; left; exact G.
+Qed.
+
+Lemma nds_numbers_app a b : nds_numbers (a ++ b) = nds_numbers a ++ nds_numbers b.
+Proof. unfold nds_numbers. apply flat_map_app. Qed.
+
+(* the numbers of node x1 occur nowhere else in the structure *)
+Definition alone (i : nat) (B1 B2 : list (pbar Q)) (P S : list (pnode Q * dof3)) : Prop :=
+  ~ In i (bars_numbers B1) /\ ~ In i (bars_numbers B2) /\ ~ In i (nds_numbers P) /\ ~ In i (nds_numbers S).
+
+Section Interior.
+Variables (n : nat) (sup : list nat) (u : list Q).
+Variables (B1 B2 : list (pbar Q)) (p : pbar Q) (P S : list (pnode Q * dof3)) (x0 x1 x2 : pnode Q * dof3).
+Let bars := B1 ++ p :: B2.
+Let b := pb_bar p.
+Hypothesis Hnds : pbar_nds p = P ++ x0 :: x1 :: x2 :: S.
+
+Let sl01 := {| s_b := b; s_na := fst x0; s_nb := fst x1; s_da := snd x0; s_db := snd x1 |}.
+Let sl12 := {| s_b := b; s_na := fst x1; s_nb := fst x2; s_da := snd x1; s_db := snd x2 |}.
+
+Lemma k_terms_at_interior i :
+  alone i B1 B2 (P ++ [x0]) (x2 :: S) ->
+  fraw_at (k_terms u bars) i == fraw_at (s_fterms u sl01) i + fraw_at (s_fterms u sl12) i.
+Proof.
+  intros (H1 & H2 & H3 & H4).
+  unfold k_terms, all_slices, bars. rewrite flat_map_app. cbn [flat_map]. rewrite !flat_map_app, !fraw_at_app.
+  fold (all_slices B1). fold (all_slices B2). fold (k_terms u B1). fold (k_terms u B2).
+  rewrite (k_terms_bars_notin u B1 i H1), (k_terms_bars_notin u B2 i H2).
+  rewrite bar_slices_chain. fold (pbar_nds p). rewrite Hnds.
+  rewrite (chain_slices_app (pb_bar p) P x0 (x1 :: x2 :: S)).
+  change (chain_slices (pb_bar p) (x0 :: x1 :: x2 :: S)) with (sl01 :: sl12 :: chain_slices b (x2 :: S)).
+  rewrite flat_map_app. cbn [flat_map]. rewrite !fraw_at_app.
+  rewrite (fraw_chain_notin u (pb_bar p) (P ++ [x0]) i H3), (fraw_chain_notin u b (x2 :: S) i H4). ring.
+Qed.
+
+Lemma f_terms_at_interior i :
+  alone i B1 B2 (P ++ [x0]) (x2 :: S) ->
+  fraw_at (all_fterms bars) i == fraw_at (node_fterms b x1) i.
+Proof.
+  intros (H1 & H2 & H3 & H4).
+  unfold all_fterms, bars. rewrite flat_map_app. cbn [flat_map]. rewrite !fraw_at_app.
+  fold (all_fterms B1). fold (all_fterms B2).
+  rewrite (fterms_bars_notin B1 i H1), (fterms_bars_notin B2 i H2).
+  unfold bar_fterms. fold (pbar_nds p). rewrite Hnds.
+  replace (P ++ x0 :: x1 :: x2 :: S) with ((P ++ [x0]) ++ x1 :: x2 :: S) by (rewrite <- app_assoc; reflexivity).
+  rewrite flat_map_app.
+  change (flat_map (node_fterms (pb_bar p)) (x1 :: x2 :: S)) with
+    (node_fterms (pb_bar p) x1 ++ flat_map (node_fterms (pb_bar p)) (x2 :: S)).
+  rewrite !fraw_at_app.
+  rewrite (fterms_nds_notin (pb_bar p) (P ++ [x0]) i H3), (fterms_nds_notin (pb_bar p) (x2 :: S) i H4). unfold b. ring.
+Qed.
+
+(* the equation carrying a number of the interior node x1, in force form *)
+Lemma interior_row i :
+  Forall (nums_below n) (all_slices bars) -> solves n bars sup u -> (i < n)%nat ->
+  is_supported sup i = false -> row_empty (all_contribs bars) i = false ->
+  alone i B1 B2 (P ++ [x0]) (x2 :: S) ->
+  fraw_at (s_fterms u sl01) i + fraw_at (s_fterms u sl12) i == fraw_at (node_fterms b x1) i.
+Proof.
+  intros Hn Hs Hi Hsup Hrow Hal.
+  rewrite <- (k_terms_at_interior i Hal), <- (f_terms_at_interior i Hal).
+  apply (row_is_equilibrium n bars sup u i Hn Hs Hi Hsup Hrow).
+Qed.
+End Interior.
+
+(* ---------- element forces in the bar's own axes ---------- *)
+
+Lemma s_force_unfiltered u sl p : no_tiny (s_k sl) -> (p < 6)%nat ->
+  s_force u sl p == qsum (map (fun q => entry (s_k sl) p q * uget u (nth q (s_nums sl) 0%nat)) (seq 0 6)).
+Proof.
+  intros Hk Hp. unfold s_force. apply qsum_ext_in. intros q Hq. apply in_seq in Hq.
+  rewrite (filtered_id (s_k sl) Hk p q Hp) by lia. reflexivity.
+Qed.
+
+(* stiffness in global axes x global displacements = local stiffness x local displacements,
+   turned back into global axes (both end nodes) *)
+Lemma s_force_rotated u (b : bar Q) (na nb : pnode Q) (da db : dof3) :
+  let sl := {| s_b := b; s_na := na; s_nb := nb; s_da := da; s_db := db |} in
+  no_tiny (s_k sl) -> ~ slice_len b na nb == 0 -> good_bar b ->
+  let kd := mv (slice_k b na nb) (slice_d b u da db) in
+  s_force u sl 0 == nth 0 kd 0 * b_c b - nth 1 kd 0 * b_s b /\
+  s_force u sl 1 == nth 0 kd 0 * b_s b + nth 1 kd 0 * b_c b /\
+  s_force u sl 2 == nth 2 kd 0 /\
+  s_force u sl 3 == nth 3 kd 0 * b_c b - nth 4 kd 0 * b_s b /\
+  s_force u sl 4 == nth 3 kd 0 * b_s b + nth 4 kd 0 * b_c b /\
+  s_force u sl 5 == nth 5 kd 0.
+Proof.
+  intros sl Hk Hl (HE & HA & HI & HS) kd.
+  assert (HL : ~ b_L b == 0) by (intro H; apply Hl; unfold slice_len; rewrite H; ring).
+  assert (Ht : ~ pn_t nb - pn_t na == 0) by (intro H; apply Hl; unfold slice_len; rewrite H; ring).
+  rewrite !(s_force_unfiltered u sl) by (exact Hk || lia).
+  unfold kd, slice_k, slice_d, slice_len, node_local, node_global, to_local, t_fx, t_fy, t_mz.
+  unfold sl, s_k, s_nums, slice_numbers, d3_list. cbn [s_b s_na s_nb s_da s_db fst snd].
+  destruct da as [[a1 a2] a3], db as [[b1 b2] b3]. cbn [fst snd app nth].
+  unfold stiff_gen, k_local, k_local_coeffs, mv, dot, vsum, entry, qsum.
+  cbn [map seq nth fold_right combine fst snd nadd nmul nsub ndiv nopp nofZ n0 n1 QOps].
+  generalize (uget u a1) (uget u a2) (uget u a3) (uget u b1) (uget u b2) (uget u b3). intros g1 g2 g3 g4 g5 g6.
+  repeat split; field; auto.
+Qed.
+
+Lemma eqb_refl_true a : Nat.eqb a a = true. Proof. apply Nat.eqb_refl. Qed.
+Lemma eqb_neq_false a b : a <> b -> Nat.eqb a b = false. Proof. apply Nat.eqb_neq. Qed.
+
+(* ---------- the three rows of an interior slice node are its equilibrium ---------- *)
+
+Theorem interior_node_equilibrium n sup u B1 B2 p P S x0 x1 x2 :
+  let bars := B1 ++ p :: B2 in
+  let b := pb_bar p in
+  pbar_nds p = P ++ x0 :: x1 :: x2 :: S ->
+  Forall (nums_below n) (all_slices bars) -> solves n bars sup u ->
+  good_bar b -> b_c b * b_c b + b_s b * b_s b == 1 ->
+  ~ slice_len b (fst x0) (fst x1) == 0 -> ~ slice_len b (fst x1) (fst x2) == 0 ->
+  no_tiny (s_k {| s_b := b; s_na := fst x0; s_nb := fst x1; s_da := snd x0; s_db := snd x1 |}) ->
+  no_tiny (s_k {| s_b := b; s_na := fst x1; s_nb := fst x2; s_da := snd x1; s_db := snd x2 |}) ->
+  NoDup (d3_list (snd x1)) ->
+  (forall i, In i (d3_list (snd x1)) ->
+     (i < n)%nat /\ is_supported sup i = false /\ row_empty (all_contribs bars) i = false /\
+     ~ In i (d3_list (snd x0)) /\ ~ In i (d3_list (snd x2)) /\
+     alone i B1 B2 (P ++ [x0]) (x2 :: S)) ->
+  node_equilibrium b u (fst x0) (fst x1) (fst x2) (snd x0) (snd x1) (snd x2).
+Proof.
+  intros bars b Hnds Hn Hs Hb Hcs Hl01 Hl12 Hk01 Hk12 Hnd Hpriv.
+  destruct x0 as [n0 d0], x1 as [n1 d1], x2 as [n2 d2]. cbn [fst snd] in *.
+  destruct (s_force_rotated u b n0 n1 d0 d1 Hk01 Hl01 Hb) as (_ & _ & _ & F3 & F4 & F5).
+  destruct (s_force_rotated u b n1 n2 d1 d2 Hk12 Hl12 Hb) as (G0 & G1 & G2 & _ & _ & _).
+  set (sl01 := {| s_b := b; s_na := n0; s_nb := n1; s_da := d0; s_db := d1 |}) in *.
+  set (sl12 := {| s_b := b; s_na := n1; s_nb := n2; s_da := d1; s_db := d2 |}) in *.
+  assert (Row : forall i, In i (d3_list d1) ->
+            fraw_at (s_fterms u sl01) i + fraw_at (s_fterms u sl12) i == fraw_at (node_fterms b (n1, d1)) i).
+  { intros i Hi. destruct (Hpriv i Hi) as (Hin & Hsup & Hrow & _ & _ & Hal).
+    exact (interior_row n sup u B1 B2 p P S (n0, d0) (n1, d1) (n2, d2) Hnds i Hn Hs Hin Hsup Hrow Hal). }
+  destruct d0 as [[a1 a2] a3], d1 as [[b1 b2] b3], d2 as [[c1 c2] c3].
+  unfold d3_list in *. cbn [fst snd] in *.
+  assert (Hb12 : b1 <> b2 /\ b1 <> b3 /\ b2 <> b3).
+  { inversion Hnd as [|? ? N1 N2]; subst. inversion N2 as [|? ? N3 N4]; subst.
+    repeat split; intro E; subst; [apply N1 | apply N1 | apply N3]; cbn; auto. }
+  destruct Hb12 as (Hb12 & Hb13 & Hb23).
+  pose proof (Row b1 ltac:(cbn; auto)) as R1. pose proof (Row b2 ltac:(cbn; auto)) as R2. pose proof (Row b3 ltac:(cbn; auto)) as R3.
+  destruct (Hpriv b1 ltac:(cbn; auto)) as (_ & _ & _ & A1 & C1 & _).
+  destruct (Hpriv b2 ltac:(cbn; auto)) as (_ & _ & _ & A2 & C2 & _).
+  destruct (Hpriv b3 ltac:(cbn; auto)) as (_ & _ & _ & A3 & C3 & _).
+  cbn [In] in A1, A2, A3, C1, C2, C3.
+  rewrite node_fterms_at in R1, R2, R3. cbv zeta in R1, R2, R3.
+  unfold s_fterms in R1, R2, R3. rewrite !fraw_at_map_seq in R1, R2, R3. cbn [fst snd] in R1, R2, R3.
+  unfold sl01, sl12, s_nums, slice_numbers, d3_list in R1, R2, R3.
+  cbn [s_da s_db fst snd app seq map nth qsum fold_right] in R1, R2, R3.
+  rewrite ?eqb_refl_true in R1, R2, R3.
+  repeat match type of R1 with context [Nat.eqb ?x ?y] => rewrite (eqb_neq_false x y) in R1 by (intro; subst; tauto) end.
+  repeat match type of R2 with context [Nat.eqb ?x ?y] => rewrite (eqb_neq_false x y) in R2 by (intro; subst; tauto) end.
+  repeat match type of R3 with context [Nat.eqb ?x ?y] => rewrite (eqb_neq_false x y) in R3 by (intro; subst; tauto) end.
+  fold sl01 sl12 in R1, R2, R3.
+  rewrite F3, G0 in R1. rewrite F4, G1 in R2. rewrite F5, G2 in R3.
+  unfold node_equilibrium. cbv zeta.
+  set (k01 := mv (slice_k b n0 n1) (slice_d b u (a1, a2, a3) (b1, b2, b3))) in *.
+  set (k12 := mv (slice_k b n1 n2) (slice_d b u (b1, b2, b3) (c1, c2, c3))) in *.
+  clearbody k01 k12.
+  unfold to_global, t_fx, t_fy, t_mz in *. cbn [fst snd nadd nmul nsub QOps] in *.
+  set (NX := fst (fst (pn_net n1))) in *. set (NY := snd (fst (pn_net n1))) in *. set (NZ := snd (pn_net n1)) in *.
+  clearbody NX NY NZ.
+  set (c := b_c b) in *. set (s := b_s b) in *. clearbody c s.
+  set (X := nth 3 k01 0 + nth 0 k12 0 - NX). set (Y := nth 4 k01 0 + nth 1 k12 0 - NY).
+  assert (E1 : X * c - Y * s == 0) by (unfold X, Y; lra).
+  assert (E2 : X * s + Y * c == 0) by (unfold X, Y; lra).
+  assert (HX : X == 0).
+  { setoid_replace X with (X * (c * c + s * s)) by (rewrite Hcs; ring).
+    setoid_replace (X * (c * c + s * s)) with (c * (X * c - Y * s) + s * (X * s + Y * c)) by ring.
+    rewrite E1, E2. ring. }
+  assert (HY : Y == 0).
+  { setoid_replace Y with (Y * (c * c + s * s)) by (rewrite Hcs; ring).
+    setoid_replace (Y * (c * c + s * s)) with (c * (X * s + Y * c) - s * (X * c - Y * s)) by ring.
+    rewrite E1, E2. ring. }
+  unfold X in HX. unfold Y in HY. repeat split; lra.
+Qed.
